@@ -98,7 +98,7 @@ def run_unit(job):
         res["exhausted"] = st["exhausted"]
     except core.Unsupported as u:
         res["error"] = "Unsupported: %s" % (u,)
-        res["tb"] = traceback.format_exc()[-1500:]
+        res["tb"] = traceback.format_exc()[-4000:]
     except BaseException as ex:
         res["error"] = "%s: %s" % (type(ex).__name__, ex)
         res["tb"] = traceback.format_exc()[-3000:]
